@@ -67,6 +67,14 @@ CurRec(s) == IF s \in DOMAIN w.cur THEN w.cur[s] ELSE NoRec
 DirtyNow(g, s) == Dirty(g, w.file, CurRec(s), s)
 StOf(s) == IF s \in DOMAIN w.st THEN w.st[s] ELSE "Unknown"
 
+\* Spellings the scenario used for files of the current manifest (manifest text, reported
+\* dependencies, command line): <<spelling, canonical name>> with spelling # canonical.
+SpellTable(g) == IF "spell" \in DOMAIN g THEN Range(g.spell) ELSE {}
+Uncanonical(g) == {p[1] : p \in SpellTable(g)} \ ({p[2] : p \in SpellTable(g)} \cup AllFiles(g))
+CanonOf(g, n) == IF \E p \in SpellTable(g) : p[1] = n
+                   THEN (CHOOSE p \in SpellTable(g) : p[1] = n)[2] ELSE n
+DumpNames(b) == Range(b.outs) \cup Range(b.ins) \cup Range(b.oo) \cup Range(b.val) \cup Range(b.disc)
+
 StepFields == {"outs", "nxo", "ins", "nxi", "oo", "val", "phony", "cmd", "desc",
                "depfile", "msvc", "rsp", "rspc", "hasrsp", "pool"}
 SameStep(a, b) == \A f \in StepFields : a[f] = b[f]
@@ -113,6 +121,8 @@ DoWork(ev) ==
                  ev.builds[s].tok = ld[s].tok /\ ev.builds[s].disc = ld[s].deps
       nld == Cardinality({s \in StepIds(g2) : ld[s].tok # ""})
       v == Lbl(IF ev.n = 1 THEN {"C10"} ELSE {"C10", "C17"}, "graph", same)
+           \cup Lbl({"C13"}, "uncanonical-node",
+                  known => \A i \in DOMAIN ev.builds : DumpNames(ev.builds[i]) \cap Uncanonical(g2) = {})
            \cup (IF same THEN Lbl({"C08", "C07"}, "loaded", ldok) ELSE {})
            \cup Lbl({"C17"}, "reload-without-run", ev.n = 1 \/ w.p1ok)
   IN [w EXCEPT !.g = g2, !.workNo = ev.n, !.bad = ~same,
@@ -219,7 +229,8 @@ DoDbw(ev) ==
            \cup (IF s = 0 THEN {} ELSE
                    Lbl({"C05", "C02"}, "rec-without-success", w.inv.adopt \/ w.pend.s = s)
                    \cup Lbl({"C09"}, IF w.inv.adopt THEN "rec-deps-adopt" ELSE "rec-deps", (w.inv.adopt \/ w.pend.s = s) => ev.deps = expected)
-                   \cup Lbl({"C02"}, "rec-missing-file", MissingOf(g, w.file, s, ev.deps) = {}))
+                   \cup Lbl({"C02"}, "rec-missing-file", MissingOf(g, w.file, s, ev.deps) = {})
+                   \cup Lbl({"C13"}, "uncanonical-dep", Range(ev.deps) \cap Uncanonical(g) = {}))
       cov == BumpIf(BumpIf(BumpIf(Bump(w.cov, "dbw"), "adoptRec", isBuild /\ w.inv.adopt),
                 "discRec", isBuild /\ ev.deps # <<>>), "crash", "kept" \in DOMAIN ev)
   IN IF w.bad \/ ~isBuild THEN [w EXCEPT !.cov = cov]
@@ -288,7 +299,9 @@ DoEnd(ev) ==
                                         /\ ev.summary # "none")
                 \cup Lbl({"C18"}, IF unk \subseteq logNames THEN "unknown-accepted-logname" ELSE "unknown-accepted",
                     unk # {} => ~ok)
-                \cup Lbl({"C18"}, "unknown-arg", ev.errk = "unknown_path" => ev.errarg \in unk)
+                \cup Lbl({"C18"}, "unknown-arg", ev.errk = "unknown_path" => CanonOf(g, ev.errarg) \in unk)
+                \cup Lbl({"C13"}, "uncanonical-target",
+                        ev.errk = "unknown_path" => ~KnownName(g, CanonOf(g, ev.errarg)))
                 \cup Lbl(IF w.workNo = 2 THEN {"C18", "C17"} ELSE {"C18"}, "wanted-closure",
                       (ok /\ ev.err = "") => wantedSet = Wn)
                 \cup Lbl({"C06"}, "cycle-accepted", cyc => ~ok)
